@@ -3,21 +3,21 @@ import SignaloModel.Proofs.MeanProofs
 /-!
 # C03 — Moving average equals the mean of the last min(k,N) samples
 
-Property theorems for C03 (statements are printed by `#check`, axioms by `#check @Registry.mean_registry_correct
-#check @Registry.mean_registry_forgets
-#check @Registry.mean_registry_const
-#print axioms`;
-`bin/check C03` re-elaborates this file on every run and audits the axiom lists).
+The property theorems for C03: `#check` prints each statement, `#print axioms` its axioms;
+`bin/check C03` re-elaborates this file on every run and audits the axiom lists.
 -/
 open SignaloModel
 
+#check @Registry.mean_registry_correct
+#check @Registry.mean_registry_forgets
+#check @Registry.mean_registry_const
 #check @Sinks.minv_init
 #check @Sinks.minv_step
 #check @Sinks.mean_forgets
 
-#print axioms Sinks.minv_init
-#print axioms Sinks.minv_step
-#print axioms Sinks.mean_forgets
 #print axioms Registry.mean_registry_correct
 #print axioms Registry.mean_registry_forgets
 #print axioms Registry.mean_registry_const
+#print axioms Sinks.minv_init
+#print axioms Sinks.minv_step
+#print axioms Sinks.mean_forgets
